@@ -63,24 +63,33 @@ theorem textOf_single (e : Elem) : textOf [e] = e.display := rfl
 theorem stripWs_space : stripWs [' '] = [] := by decide
 theorem stripWs_nl : stripWs ['\n'] = [] := by decide
 
+theorem stripWs_cons_ws (c : Char) (r : Str) (h : isWs c = true) : stripWs (c :: r) = stripWs r := by
+  simp [stripWs, h]
+
+theorem stripWs_cons (c : Char) (r : Str) : stripWs (c :: r) = stripWs [c] ++ stripWs r := by
+  rw [← stripWs_append]; rfl
+
 theorem splitSent_content (text cur : Str) :
     stripWs (splitSent text cur).flatten = stripWs (cur ++ text) := by
   fun_induction splitSent text cur with
-  | case1 cur r h => simp [stripWs_eq_nil_of_isEmpty h, ← stripWs_trim cur, r]
+  | case1 cur r h =>
+    have : stripWs cur = [] := by rw [← stripWs_trim cur]; exact stripWs_eq_nil_of_isEmpty h
+    simp [this, stripWs_nil]
   | case2 cur r h => simp [← stripWs_trim cur, r]
   | case3 ch cur0 cur hp rest' ih =>
-    simp only [List.flatten_cons, stripWs_append, stripWs_trim, ih, cur]
-    have : cur0 ++ ch :: ' ' :: rest' = cur0 ++ [ch] ++ [' '] ++ rest' := by simp
-    rw [this]; simp [stripWs_append, stripWs_space]
+    simp only [List.flatten_cons, stripWs_append, stripWs_trim, ih, cur, List.nil_append]
+    rw [stripWs_cons ch (' ' :: rest'), stripWs_cons_ws ' ' rest' (by decide)]
+    simp [List.append_assoc]
   | case4 ch rest cur0 cur hp hne ih =>
     rw [ih]; simp [cur]
   | case5 ch rest cur0 cur hp hnl t ih =>
     simp only [List.flatten_append, stripWs_append, ih, List.nil_append]
     have ht : stripWs (cur0 ++ [ch]) = stripWs t := (stripWs_trim _).symm
-    have : cur0 ++ ch :: rest = (cur0 ++ [ch]) ++ rest := by simp
-    rw [this, stripWs_append, ht]
+    have h2 : stripWs (cur0 ++ ch :: rest) = stripWs t ++ stripWs rest := by
+      rw [show cur0 ++ ch :: rest = (cur0 ++ [ch]) ++ rest by simp, stripWs_append, ht]
+    rw [← stripWs_append cur0, h2]
     by_cases he : t.isEmpty = true
-    · simp [he, stripWs_eq_nil_of_isEmpty he]
+    · simp [he, stripWs_eq_nil_of_isEmpty he, stripWs_nil]
     · simp [he]
   | case6 ch rest cur0 cur hp hnl ih =>
     rw [ih]; simp [cur]
@@ -89,6 +98,7 @@ def SplitSt.content (st : SplitSt) : Str := st.fragments.flatten ++ st.current
 
 theorem splitStep_content (cnt : Counter) (max : Nat) (st : SplitSt) (s : Str) :
     stripWs (splitStep cnt max st s).content = stripWs st.content ++ stripWs s := by
+  have hsp : ∀ x : Str, stripWs (' ' :: x) = stripWs x := fun x => stripWs_cons_ws ' ' x (by decide)
   unfold splitStep
   simp only
   split
@@ -100,9 +110,9 @@ theorem splitStep_content (cnt : Counter) (max : Nat) (st : SplitSt) (s : Str) :
       simp [SplitSt.content, this, stripWs_append, stripWs_trim]
     · split
       · split <;>
-          simp [SplitSt.content, stripWs_append, stripWs_trim, stripWs_space, List.append_assoc]
+          simp [SplitSt.content, stripWs_append, stripWs_trim, hsp, List.append_assoc]
       · split <;>
-          simp [SplitSt.content, stripWs_append, stripWs_trim, stripWs_space, List.append_assoc]
+          simp [SplitSt.content, stripWs_append, stripWs_trim, hsp, List.append_assoc]
 
 theorem splitFold_content (cnt : Counter) (max : Nat) (l : List Str) (st : SplitSt) :
     stripWs (l.foldl (splitStep cnt max) st).content = stripWs st.content ++ stripWs l.flatten := by
@@ -110,32 +120,36 @@ theorem splitFold_content (cnt : Counter) (max : Nat) (l : List Str) (st : Split
   | nil => simp [stripWs_nil]
   | cons a r ih => rw [List.foldl_cons, ih, splitStep_content]; simp [stripWs_append]
 
+def fragsOf (text : Str) (st : SplitSt) : List Str :=
+  let frags := if st.current.isEmpty then st.fragments else st.fragments ++ [st.current]
+  if frags.isEmpty then [text] else frags
+
+theorem splitBySentences_eq (text : Str) (cnt : Counter) (max : Nat) :
+    splitBySentences text cnt max =
+      fragsOf text ((splitIntoSentences text).foldl (splitStep cnt max) ⟨[], [], 0⟩) := rfl
+
+theorem fragsOf_ne_nil (text : Str) (st : SplitSt) : fragsOf text st ≠ [] := by
+  by_cases hc : st.current = [] <;> by_cases hf : st.fragments = [] <;> simp [fragsOf, hc, hf]
+
+theorem fragsOf_content (text : Str) (st : SplitSt) (h : stripWs st.content = stripWs text) :
+    stripWs (fragsOf text st).flatten = stripWs text := by
+  rw [← h]; unfold SplitSt.content
+  by_cases hc : st.current = [] <;> by_cases hf : st.fragments = [] <;>
+    simp_all [fragsOf, SplitSt.content, stripWs_nil]
+
 theorem splitBySentences_ne_nil (text : Str) (cnt : Counter) (max : Nat) :
     splitBySentences text cnt max ≠ [] := by
-  unfold splitBySentences
-  simp only
-  split
-  · simp
-  · rename_i h; intro h'; simp [h'] at h
+  rw [splitBySentences_eq]; exact fragsOf_ne_nil _ _
 
 theorem splitBySentences_content (text : Str) (cnt : Counter) (max : Nat) :
     stripWs (splitBySentences text cnt max).flatten = stripWs text := by
-  unfold splitBySentences
-  simp only
-  split
-  · simp
-  · have h := splitFold_content cnt max (splitIntoSentences text) ⟨[], [], 0⟩
-    have hs : stripWs (splitIntoSentences text).flatten = stripWs text := by
-      simpa using splitSent_content text []
-    rw [hs] at h
-    simp only [SplitSt.content, List.flatten_nil, List.append_nil, stripWs_nil, List.nil_append] at h
-    rw [← h]
-    split
-    · rename_i hc
-      have : ((splitIntoSentences text).foldl (splitStep cnt max) ⟨[], [], 0⟩).current = [] := by
-        simpa using hc
-      simp [this]
-    · simp
+  rw [splitBySentences_eq]
+  apply fragsOf_content
+  have h := splitFold_content cnt max (splitIntoSentences text) ⟨[], [], 0⟩
+  have hs : stripWs (splitIntoSentences text).flatten = stripWs text := by
+    simpa [splitIntoSentences] using splitSent_content text []
+  rw [hs] at h
+  simpa [SplitSt.content, stripWs_nil] using h
 
 /-! ### `Covers` -/
 
@@ -196,6 +210,27 @@ def oversizedSt (cfg : Config) (cnt : Counter) (st : St) (e : Elem) : St :=
   let st1 := flushIfAny cnt st
   { st1 with chunks := st1.chunks ++ oversizedChunks cfg cnt e }
 
+theorem step_eq_empty (cfg : Config) (cnt : Counter) (st : St) (e : Elem) (hb : st.buffer = []) :
+    step cfg cnt st e =
+      if cnt.count e.display > cfg.maxTokens then oversizedSt cfg cnt st e else startSt cfg cnt st e := by
+  by_cases ho : cnt.count e.display > cfg.maxTokens <;>
+    simp [step, oversizedSt, startSt, flushIfAny, hb, ho]
+
+theorem step_eq_nonempty (cfg : Config) (cnt : Counter) (st : St) (e l : Elem)
+    (hl : st.buffer.getLast? = some l) :
+    step cfg cnt st e =
+      if cfg.mergeAdjacent = true ∧ canMergeElems l e cfg = true ∧ joinedTokens cnt st e ≤ cfg.maxTokens
+      then mergedSt cnt st e
+      else if cnt.count e.display > cfg.maxTokens then oversizedSt cfg cnt st e
+      else startSt cfg cnt st e := by
+  have hb : st.buffer ≠ [] := by intro h; simp [h] at hl
+  have hne : st.buffer.isEmpty = false := by simpa using hb
+  cases ha : cnt.additive <;> cases hm : cfg.mergeAdjacent <;> cases hc : canMergeElems l e cfg <;>
+    by_cases hj : joinedTokens cnt st e ≤ cfg.maxTokens <;>
+    by_cases ho : cnt.count e.display > cfg.maxTokens <;>
+    simp [joinedTokens, ha] at hj <;>
+    simp [step, hl, hne, ha, hm, hc, hj, ho, joinedTokens, mergedSt, oversizedSt, startSt, flushIfAny, flush]
+
 /-- The three ways one loop iteration can go. -/
 theorem step_cases (cfg : Config) (cnt : Counter) (st : St) (e : Elem) :
     (∃ l, st.buffer.getLast? = some l ∧ cfg.mergeAdjacent = true ∧ canMergeElems l e cfg = true ∧
@@ -203,62 +238,22 @@ theorem step_cases (cfg : Config) (cnt : Counter) (st : St) (e : Elem) :
     (cnt.count e.display > cfg.maxTokens ∧ step cfg cnt st e = oversizedSt cfg cnt st e) ∨
     (cnt.count e.display ≤ cfg.maxTokens ∧ step cfg cnt st e = startSt cfg cnt st e) := by
   by_cases hb : st.buffer = []
-  · -- empty buffer: no merge, no flush
-    have hl : st.buffer.getLast? = none := by simp [hb]
+  · rw [step_eq_empty cfg cnt st e hb]
     by_cases ho : cnt.count e.display > cfg.maxTokens
-    · right; left
-      refine ⟨ho, ?_⟩
-      simp [step, oversizedSt, flushIfAny, hb, ho]
-    · right; right
-      refine ⟨by omega, ?_⟩
-      simp [step, startSt, flushIfAny, hb, ho]
+    · right; left; simp [ho]
+    · right; right; simp [ho]; omega
   · obtain ⟨l, hl⟩ : ∃ l, st.buffer.getLast? = some l := by
       cases h : st.buffer.getLast? with
       | none => simp at h; exact absurd h hb
       | some l => exact ⟨l, rfl⟩
-    have hne : st.buffer.isEmpty = false := by simpa using hb
-    -- the `joined_tokens` of the code
-    have hj : (match (if (!st.buffer.isEmpty && !cnt.additive) = true
-                      then some (st.bufferText ++ ['\n'] ++ e.display) else none) with
-               | some j => cnt.count j
-               | none => if st.buffer.isEmpty = true then cnt.count e.display
-                         else st.bufferTokens + cnt.count e.display) = joinedTokens cnt st e := by
-      unfold joinedTokens
-      cases cnt.additive <;> simp [hne]
+    rw [step_eq_nonempty cfg cnt st e l hl]
     by_cases hm : cfg.mergeAdjacent = true ∧ canMergeElems l e cfg = true ∧
         joinedTokens cnt st e ≤ cfg.maxTokens
-    · left
-      refine ⟨l, hl, hm.1, hm.2.1, hm.2.2, ?_⟩
-      unfold step
-      simp only [hj, hl]
-      simp only [hne, hm.1, hm.2.1, hm.2.2, Bool.not_false, Bool.and_true, decide_true, if_true]
-      unfold mergedSt
-      cases cnt.additive <;> simp
-    · have hflush : (decide (joinedTokens cnt st e > cfg.maxTokens) || !canMergeElems l e cfg
-          || !cfg.mergeAdjacent) = true := by
-        by_cases h1 : cfg.mergeAdjacent = true
-        · by_cases h2 : canMergeElems l e cfg = true
-          · have : ¬ joinedTokens cnt st e ≤ cfg.maxTokens := fun h3 => hm ⟨h1, h2, h3⟩
-            simp [Nat.lt_of_not_le this]
-          · simp [h2]
-        · simp [h1]
-      have hnm : (cfg.mergeAdjacent && !st.buffer.isEmpty && canMergeElems l e cfg &&
-          decide (joinedTokens cnt st e ≤ cfg.maxTokens)) = false := by
-        cases h1 : cfg.mergeAdjacent <;> cases h2 : canMergeElems l e cfg <;> simp [hne]
-        intro h3; exact hm ⟨h1, h2, h3⟩
+    · left; exact ⟨l, hl, hm.1, hm.2.1, hm.2.2, by rw [if_pos hm]⟩
+    · rw [if_neg hm]
       by_cases ho : cnt.count e.display > cfg.maxTokens
-      · right; left
-        refine ⟨ho, ?_⟩
-        unfold step
-        simp only [hj, hl]
-        simp only [hnm, hflush, hne, Bool.not_false, Bool.true_and, if_true]
-        simp [oversizedSt, flushIfAny, hne, flush, ho]
-      · right; right
-        refine ⟨by omega, ?_⟩
-        unfold step
-        simp only [hj, hl]
-        simp only [hnm, hflush, hne, Bool.not_false, Bool.true_and, if_true]
-        simp [startSt, flushIfAny, hne, flush, ho]
+      · right; left; simp [ho]
+      · right; right; simp [ho]; omega
 
 /-- all chunk elements emitted so far, followed by the buffered ones -/
 def St.emitted (st : St) : List Elem := st.chunks.flatMap (·.elements) ++ st.buffer
@@ -270,5 +265,198 @@ theorem flushIfAny_emitted (cnt : Counter) (st : St) :
   · rename_i h; have : st.buffer = [] := by simpa using h
     simp [this]
   · simp [mkChunk]
+
+/-! ### generic invariants of the loop -/
+
+theorem fold_inv (cfg : Config) (cnt : Counter) (I : St → List Elem → Prop)
+    (h0 : I St.init [])
+    (hstep : ∀ st pre e, I st pre → I (step cfg cnt st e) (pre ++ [e])) :
+    ∀ els, I (els.foldl (step cfg cnt) St.init) els := by
+  have gen : ∀ els st pre, I st pre → I (els.foldl (step cfg cnt) st) (pre ++ els) := by
+    intro els
+    induction els with
+    | nil => intro st pre h; simpa using h
+    | cons e r ih =>
+      intro st pre h
+      have := ih (step cfg cnt st e) (pre ++ [e]) (hstep st pre e h)
+      simpa [List.append_assoc] using this
+  intro els
+  simpa using gen els St.init [] h0
+
+/-- what one iteration does to the list of finished chunks -/
+theorem step_chunks_forall (P : Chunk → Prop) (cfg : Config) (cnt : Counter) (st : St) (e : Elem)
+    (hc : ∀ c ∈ st.chunks, P c)
+    (hflush : st.buffer ≠ [] → P (mkChunk cnt st.buffer st.bufferHeading false))
+    (hover : ∀ c ∈ oversizedChunks cfg cnt e, P c) :
+    ∀ c ∈ (step cfg cnt st e).chunks, P c := by
+  have hfl : ∀ c ∈ (flushIfAny cnt st).chunks, P c := by
+    rw [flushIfAny_chunks]
+    split
+    · exact hc
+    · rename_i h
+      intro c hcm
+      rcases List.mem_append.1 hcm with h1 | h1
+      · exact hc c h1
+      · have : c = mkChunk cnt st.buffer st.bufferHeading false := by simpa using h1
+        rw [this]; exact hflush (by simpa using h)
+  rcases step_cases cfg cnt st e with ⟨l, _, _, _, _, h⟩ | ⟨_, h⟩ | ⟨_, h⟩
+  · rw [h]; exact hc
+  · rw [h]; intro c hcm
+    rcases List.mem_append.1 hcm with h1 | h1
+    · exact hfl c h1
+    · exact hover c h1
+  · rw [h]; exact hfl
+
+theorem finish_forall (P : Chunk → Prop) (cnt : Counter) (st : St)
+    (hc : ∀ c ∈ st.chunks, P c)
+    (hflush : st.buffer ≠ [] → P (mkChunk cnt st.buffer st.bufferHeading false)) :
+    ∀ c ∈ finish cnt st, P c := by
+  unfold finish
+  split
+  · exact hc
+  · rename_i h
+    intro c hcm
+    rcases List.mem_append.1 hcm with h1 | h1
+    · exact hc c h1
+    · have : c = mkChunk cnt st.buffer st.bufferHeading false := by simpa using h1
+      rw [this]; exact hflush (by simpa using h)
+
+theorem finish_elements (cnt : Counter) (st : St) :
+    (finish cnt st).flatMap (·.elements) = st.emitted := by
+  unfold finish St.emitted
+  split
+  · rename_i h; have : st.buffer = [] := by simpa using h
+    simp [this]
+  · simp [mkChunk]
+
+/-- the oversized-element path emits exactly that element, whole or as fragments -/
+theorem oversizedChunks_covers (cfg : Config) (cnt : Counter) (e : Elem) :
+    Covers ((oversizedChunks cfg cnt e).flatMap (·.elements)) [e] := by
+  unfold oversizedChunks
+  split
+  · rename_i hs
+    have hne := splitBySentences_ne_nil e.display cnt cfg.maxTokens
+    have hcont := splitBySentences_content e.display cnt cfg.maxTokens
+    have hfm : ((splitBySentences e.display cnt cfg.maxTokens).map fun fragment =>
+          mkChunk cnt [mkFragment e (trim fragment)] (elemHeading cfg e)
+            (decide (cnt.count (trim fragment) > cfg.maxTokens))).flatMap (·.elements)
+        = ((splitBySentences e.display cnt cfg.maxTokens).map trim).map (mkFragment e) ++ [] := by
+      generalize splitBySentences e.display cnt cfg.maxTokens = fs
+      induction fs with
+      | nil => rfl
+      | cons a r ih => simp [mkChunk] at ih ⊢; exact ih
+    rw [hfm]
+    refine Covers.split e _ hs ?_ ?_ Covers.nil
+    · intro h; apply hne; simpa using h
+    · rw [stripWs_flatten_map_trim]; exact hcont
+  · simpa [mkChunk] using Covers.refl [e]
+
+/-- one iteration emits exactly the new element, after everything emitted before -/
+theorem step_emitted (cfg : Config) (cnt : Counter) (st : St) (e : Elem) :
+    ∃ o, (step cfg cnt st e).emitted = st.emitted ++ o ∧ Covers o [e] := by
+  rcases step_cases cfg cnt st e with ⟨l, _, _, _, _, h⟩ | ⟨_, h⟩ | ⟨_, h⟩
+  · refine ⟨[e], ?_, Covers.refl _⟩
+    rw [h]; simp [St.emitted, mergedSt]
+  · refine ⟨(oversizedChunks cfg cnt e).flatMap (·.elements), ?_, oversizedChunks_covers cfg cnt e⟩
+    rw [h]
+    simp only [St.emitted, oversizedSt, flushIfAny_buffer, List.append_nil, List.flatMap_append]
+    rw [flushIfAny_emitted]; rfl
+  · refine ⟨[e], ?_, Covers.refl _⟩
+    rw [h]
+    simp only [St.emitted, startSt]
+    rw [flushIfAny_emitted]; rfl
+
+/-! ### the section-graph chunker -/
+
+theorem foldl_add_eq (l : List Nat) (a : Nat) : l.foldl (· + ·) a = a + l.foldl (· + ·) 0 := by
+  induction l generalizing a with
+  | nil => simp
+  | cons x r ih => simp only [List.foldl_cons]; rw [ih (a + x), ih (0 + x)]; omega
+
+/-- for a counter additive across "\n", summing per-element counts IS measuring the joined text -/
+theorem sum_counts_eq (count : Str → Nat) (h : AdditiveNl count) (e : Elem) (es : List Elem) :
+    ((e :: es).map fun x => count x.display).foldl (· + ·) 0 = count (textOf (e :: es)) := by
+  induction es generalizing e with
+  | nil => simp [textOf, joinWith]
+  | cons e' r ih =>
+    have := ih e'
+    simp only [List.map_cons, List.foldl_cons, textOf, joinWith] at this ⊢
+    rw [h, foldl_add_eq, ← this, foldl_add_eq (List.map _ r) (0 + count e'.display)]
+    omega
+
+theorem covers_flatMap {α : Type} (L : List α) (f g : α → List Elem)
+    (h : ∀ s ∈ L, Covers (f s) (g s)) : Covers (L.flatMap f) (L.flatMap g) := by
+  induction L with
+  | nil => exact Covers.nil
+  | cons a r ih =>
+    simp only [List.flatMap_cons]
+    exact Covers.append (h a (by simp)) (ih fun s hs => h s (by simp [hs]))
+
+theorem preamble_append_after (els : List Elem) : preamble els ++ afterPreamble els = els := by
+  unfold preamble afterPreamble; exact List.takeWhile_append_dropWhile
+
+theorem addChild_head (h : Str) (e : Elem) (s : Sec) (rest : List Sec) (hs : s.title.text = h) :
+    addChild h e (s :: rest) = { s with children := s.children ++ [e] } :: rest := by
+  simp [addChild, hs]
+
+/-- with well-sectioned input the graph pass only ever appends to the most recent section -/
+theorem gfold_wellSec (l : List Elem) (s0 : Sec) (older : List Sec)
+    (hw : wellSec (some s0.title.text) l = true) :
+    ((l.foldl gstep (s0 :: older)).reverse.flatMap Sec.elems) =
+      (s0 :: older).reverse.flatMap Sec.elems ++ l := by
+  induction l generalizing s0 older with
+  | nil => simp
+  | cons e r ih =>
+    simp only [List.foldl_cons]
+    by_cases ht : e.isTitle = true
+    · have hw' : wellSec (some e.text) r = true := by simpa [wellSec, ht] using hw
+      have hg : gstep (s0 :: older) e = ⟨e, []⟩ :: s0 :: older := by simp [gstep, ht]
+      rw [hg, ih ⟨e, []⟩ (s0 :: older) hw']
+      simp [Sec.elems, List.append_assoc]
+    · have hw2 : e.md.parentHeading = some s0.title.text ∧ wellSec (some s0.title.text) r = true := by
+        simpa [wellSec, ht] using hw
+      have hg : gstep (s0 :: older) e = { s0 with children := s0.children ++ [e] } :: older := by
+        simp [gstep, ht, hw2.1, addChild]
+      rw [hg, ih _ older (by simpa using hw2.2)]
+      simp [Sec.elems, List.append_assoc]
+
+theorem wellSec_after (els : List Elem) (hw : wellSec none els = true) :
+    match afterPreamble els with
+    | [] => True
+    | t :: l => t.isTitle = true ∧ wellSec (some t.text) l = true := by
+  induction els with
+  | nil => simp [afterPreamble]
+  | cons e r ih =>
+    by_cases ht : e.isTitle = true
+    · have : afterPreamble (e :: r) = e :: r := by simp [afterPreamble, List.dropWhile, ht]
+      rw [this]
+      exact ⟨ht, by simpa [wellSec, ht] using hw⟩
+    · have : afterPreamble (e :: r) = afterPreamble r := by simp [afterPreamble, List.dropWhile, ht]
+      rw [this]
+      exact ih (by simpa [wellSec, ht] using hw)
+
+theorem sections_flatten (els : List Elem) (hw : wellSec none els = true) :
+    (sections els).flatMap Sec.elems = afterPreamble els := by
+  have h := wellSec_after els hw
+  unfold sections
+  cases hap : afterPreamble els with
+  | nil => simp
+  | cons t l =>
+    rw [hap] at h
+    have hg : gstep [] t = [⟨t, []⟩] := by simp [gstep, h.1]
+    simp only [List.foldl_cons, hg]
+    rw [gfold_wellSec l ⟨t, []⟩ [] h.2]
+    simp [Sec.elems]
+
+/-- inversion of `Covers` at an input element that cannot be split -/
+theorem Covers.cons_unsplittable {o i : List Elem} {e : Elem} (hs : isSplittable e = false)
+    (h : Covers o (e :: i)) : ∃ o', o = e :: o' ∧ Covers o' i := by
+  generalize hi : e :: i = inp at h
+  cases h with
+  | nil => cases hi
+  | whole e' h' =>
+    cases hi; exact ⟨_, rfl, h'⟩
+  | split e' fs hs' _ _ _ =>
+    cases hi; rw [hs] at hs'; cases hs'
 
 end OxiVerif.C14
